@@ -167,7 +167,7 @@ func doOp(m *message.Message, o opSpec) ([]byte, bool, error) {
 		return b, err == nil, err
 	case "ad":
 		var err error
-		if o.N > 0 {
+		if o.N != 0 { // a non-positive cap means "no limit": it must behave like GetClassAd
 			_, err = m.GetClassAdWithMaxSize(ctx, int(o.N))
 		} else {
 			_, err = m.GetClassAd(ctx)
@@ -291,7 +291,9 @@ func runMsg(mc *msgCase) ([]opObs, []failure) {
 		need := -1     // no frame may be pulled while the buffer already holds this many bytes
 		switch o.Op {
 		case "strmax":
-			if o.N > 0 {
+			if o.N > 1<<40 {
+				// a cap beyond any input: nothing to check
+			} else if o.N > 0 {
 				capBytes, need = int(o.N), int(o.N)
 				if mc.Enc {
 					capBytes += 8
@@ -305,7 +307,9 @@ func runMsg(mc *msgCase) ([]opObs, []failure) {
 				capBytes += 8
 			}
 		case "ad":
-			if o.N > 0 {
+			if o.N > 1<<40 {
+				// a cap beyond any input: nothing to check (and 6*cap would overflow)
+			} else if o.N > 0 {
 				need = int(o.N)
 				if mc.Enc {
 					capBytes = 6*int(o.N) + 32
@@ -929,6 +933,50 @@ func genQuotedValues(c *core.Ctx) {
 	}
 }
 
+// genAuditCases: inputs outside the hypotheses of the theorems (caps <= 0 and at the int
+// limits) and deeply nested expressions (the external parser's nesting depth has no limit).
+func genAuditCases(c *core.Ctx) {
+	for _, enc := range []bool{false, true} {
+		str := append(wireStr(enc, []byte("abcdefgh")), wireStr(enc, []byte("next"))...)
+		ad := adBytes(enc, 2, [][]byte{[]byte("A = 1"), []byte("B = \"x\"")}, []byte("Machine"), []byte("Job"))
+		for _, cp := range []int64{-1 << 63, -1 << 31, -1, 0, 1<<31 - 1, 1 << 31, 1<<32 - 1, 1 << 62, 1<<63 - 1} {
+			for _, in := range [][]byte{str, str[:len(str)-3]} {
+				addMsgCase(c, &msgCase{Enc: enc, Frames: mock.Cut(in, []int{len(in) / 2}), Ops: []opSpec{{Op: "strmax", N: cp}, {Op: "str"}}, Note: "cap at an int limit"})
+			}
+			for _, in := range [][]byte{ad, ad[:len(ad)-4]} {
+				addMsgCase(c, &msgCase{Enc: enc, Frames: mock.Cut(in, []int{9}), Ops: []opSpec{{Op: "ad", N: cp}, {Op: "str"}}, Note: "cap at an int limit"})
+			}
+		}
+		nest := map[string]func(n int) string{
+			"neg":   func(n int) string { return strings.Repeat("-", n) + "1" },
+			"not":   func(n int) string { return strings.Repeat("!", n) + "true" },
+			"paren": func(n int) string { return strings.Repeat("(", n) + "1" + strings.Repeat(")", n) },
+			"open":  func(n int) string { return strings.Repeat("(", n) },
+			"list":  func(n int) string { return strings.Repeat("{", n) + "1" + strings.Repeat("}", n) },
+			"ad":    func(n int) string { return strings.Repeat("[a=", n) + "1" + strings.Repeat("]", n) },
+			"tern":  func(n int) string { return strings.Repeat("1?", n) + "1" + strings.Repeat(":1", n) },
+			"plus":  func(n int) string { return "1" + strings.Repeat("+1", n) },
+		}
+		for _, k := range []string{"neg", "not", "paren", "open", "list", "ad", "tern", "plus"} {
+			for _, n := range []int{1000, 20000} {
+				if c.Quick() && n == 20000 && (k == "tern" || k == "list" || k == "plus") {
+					continue
+				}
+				// count says 3 but the message stops right after the first expression: the
+				// reader fails (transport error / EOF) with the deep expression already in the ad
+				data := append(i64(3), wireStr(enc, []byte("D = "+nest[k](n)))...)
+				for _, eom := range []bool{true, false} {
+					for _, cp := range []int64{0, 4096} {
+						fr := mock.Cut(data, nil)
+						fr[0].EOM = eom
+						oracleMsgCase(c, &msgCase{Enc: enc, Frames: fr, Ops: []opSpec{{Op: "ad", N: cp}}, Note: "nesting depth " + k})
+					}
+				}
+			}
+		}
+	}
+}
+
 // genRawBody: GetClassAdRawBody is an entry point of its own (the caller has already
 // consumed the count): every hostile count against every amount of content.
 func genRawBody(c *core.Ctx) {
@@ -1001,6 +1049,9 @@ func gen(c *core.Ctx) error {
 	genMessageLevel(c)
 	if !aborted {
 		genQuotedValues(c)
+	}
+	if !aborted {
+		genAuditCases(c)
 	}
 	if !aborted {
 		genRawBody(c)
